@@ -103,6 +103,22 @@ Proof.
 Qed.
 Print Assumptions C04_new_cursor.
 
+(* a partition whose journal cannot be opened (Journals.GetOrCreate fails for it: I/O fault, no file descriptors): whenever
+   one of the matching partitions does not open, in whatever order the visit meets them, the cursor is refused; and a
+   cursor that is built is the cursor over ALL matching partitions -- never a silent subset *)
+Theorem C04_open_failure : forall (opens : nat * leaf -> bool) srcs f p,
+  ((exists s, In s srcs /\ opens s = false) -> new_cursor_o opens srcs f p = None) /\
+  (forall c, new_cursor_o opens srcs f p = Some c ->
+     (forall s, In s srcs -> opens s = true) /\ new_cursor srcs f p = Some c /\ cu_n c = length srcs) /\
+  ((forall s, In s srcs -> opens s = true) -> new_cursor_o opens srcs f p = new_cursor srcs f p).
+Proof.
+  intros opens srcs f p. split; [|split].
+  - intros (s & Hi & Hs). exact (new_cursor_o_fail opens srcs f p s Hi Hs).
+  - intros c H. exact (new_cursor_o_some opens srcs f p c H).
+  - exact (new_cursor_o_all opens srcs f p).
+Qed.
+Print Assumptions C04_open_failure.
+
 (* non-vacuity: five in-memory sources (one empty, ties, one unsorted), odd carry-over twice; the merge of the
    model run by the operations equals the statement's `out`, forward and backward *)
 Example C04_nonvacuous :
